@@ -1,6 +1,12 @@
 HOOK_COMMITS = []
 NOT_APPLICABLE = {}
 CHECKS = {
+ "C13": {
+  "level": "exploration",
+  "technique": "runtime monitor: pure-Python point-in-closed-box reference oracle on lattice coordinates (exact faces), tag-encoded data for extent copies, outcome classes counted",
+  "text": "Thousands of (object, box, inverse) triples on an integer lattice - boxes enclosing, partial, face-touching, degenerate, disjoint and half-integer, 2- and 3-column extents - are evaluated on point clouds, curves, surfaces (with unused vertices), drillholes (collar rule), block models, octrees, 2-D grids (also rotated/dipped and edited after a first look, with a guard band around faces) and groups. The library's masks must equal the loop oracle (vertices inside the closed box; cells whose vertices all qualify and the vertices those cells use; complement test for inverse); None only when the bounding boxes miss or nothing qualifies; copies by extent must hold exactly the selected coordinates with cells connecting the same coordinates and vertex/cell data following by tag; 3-D grids keep their geometry with outside values blanked; 2-D grids give the smallest covering sub-grid with outside values blanked. Held on the counted triples only.",
+  "note": "Lattice inputs make on-face membership exact; rotated grids are kept 1e-6 away from faces. Masked copies of arbitrary masks are C07's.",
+ },
  "C16": {
   "level": "exploration",
   "technique": "runtime monitor: tag-encoded inputs (unique x per vertex, values a function of the element tag), coordinate-wise oracle on the merged object live and after re-open, input ApiSnapshot/digest frame check, numpy poison proxy in the merger modules",
